@@ -22,6 +22,11 @@ func (f *Frame) lookupLocal(name string, at *ssa.BasicBlock, st *State) (Val, bo
 				spilled = true // the parameter lives in a local variable that the body may assign: use its current value
 			}
 		}
+		// a parameter that the body reassigns is an ordinary SSA variable: its current value at `at` is the nearest
+		// dominating phi / definition, not the entry value
+		if v, ok := f.lookupDominating(name, at, st); ok {
+			return v, true
+		}
 	}
 	for _, p := range f.fn.Params {
 		if p.Name() == name && !spilled {
@@ -46,6 +51,12 @@ func (f *Frame) lookupLocal(name string, at *ssa.BasicBlock, st *State) (Val, bo
 	if at == nil {
 		return Val{}, false
 	}
+	return f.lookupDominating(name, at, st)
+}
+
+// lookupDominating: nearest dominating phi / definition of a source variable at the entry of block `at`.
+func (f *Frame) lookupDominating(name string, at *ssa.BasicBlock, st *State) (Val, bool) {
+	c := f.c
 	// walk the dominator tree upwards
 	for b := at; b != nil; b = b.Idom() {
 		// phis of this block
@@ -250,7 +261,7 @@ func (f *Frame) applyContract(cur *blockCur, in ssa.Instruction, con *Contract, 
 	// results
 	res := f.freshVal(rt, hint)
 	if con.Pure && callee != nil {
-		pv := c.pureApp(callee, args, rt)
+		pv := c.pureApp(callee, args, rt, pre)
 		res = Val{T: rt, S: c.define(hint+"_pure", c.so.sortOf(rt), pv.S)}
 	}
 	cur.assume(f.typeInv(res))
@@ -360,7 +371,9 @@ func (f *Frame) havocItem(env *SpecEnv, st *State, con *Contract, callee *ssa.Fu
 		pv := e2.eval(ex)
 		p := c.ptrOf(pv)
 		if len(p.Path) > 0 {
-			f.unsupported("modifies %q: interior pointer", item)
+			// the object is embedded (slice element, field): replace it by an unknown value
+			fresh := c.declare(hn+"_obj", c.so.sortOf(t))
+			return c.store(st, p, fresh)
 		}
 		ns := st
 		if stt, ok := t.Underlying().(*types.Struct); ok {
@@ -543,6 +556,43 @@ func (f *Frame) frameObligations() {
 	if len(con.Modifies) == 0 && c.eng.inferNoMods(f.fn) {
 		c.assume("frame of " + con.Func + " inferred syntactically (stores only to objects the function created)")
 		return
+	}
+	// `modifies *p, *q` over parameters only: accepted when the syntactic summary says the function (transitively)
+	// writes only through those parameters and into objects it created
+	if len(con.Modifies) > 0 {
+		c.eng.computeSummaries()
+		if s := c.eng.summaries[f.fn]; s != nil && !s.bad {
+			allowed := map[int]bool{}
+			okForm := true
+			for _, item := range con.Modifies {
+				if !strings.HasPrefix(item, "*") || strings.ContainsAny(item, ".[") {
+					okForm = false
+					break
+				}
+				found := false
+				for i, p := range f.fn.Params {
+					if p.Name() == item[1:] {
+						allowed[i] = true
+						found = true
+					}
+				}
+				if !found {
+					okForm = false
+				}
+			}
+			if okForm {
+				within := true
+				for i := range s.writes {
+					if !allowed[i] {
+						within = false
+					}
+				}
+				if within {
+					c.assume("frame of " + con.Func + " checked syntactically: writes only through the parameters named in `modifies` and into objects it created")
+					return
+				}
+			}
+		}
 	}
 	// keys possibly modified by the body
 	touched := map[string]bool{}
